@@ -36,6 +36,16 @@
 (* anon |-> TRUE in the AST (the runner leaves its name out of the .tlb text;    *)
 (* the name is only the key of the value record).  `wrong` here is the cell with *)
 (* the unnamed field's ^ dropped (inline instead of referenced).                 *)
+(*                                                                               *)
+(* The VarUInteger family (shape numbers VBase + n - 1, n = 1..33): a field      *)
+(* (VarUInteger n) between two named fields, for every n the library's integer   *)
+(* templates are instantiated with and one more; values by vector number: 0, the *)
+(* largest length n - 1, one byte, a drawn length, top byte 0x01 / top bit set.  *)
+(* The runner compiles the schemas against the OUTPUT of the integer templates   *)
+(* (GenerateVarUintTypes, GenerateConstantInts, GenerateConstantBigInts,         *)
+(* GenerateBitsTypes), not against the checked-in integers.go.  `wrong` here is  *)
+(* the cell under (VarUInteger n+1): its length field is one bit wider exactly   *)
+(* when n is a power of two.                                                     *)
 EXTENDS TlbMini, Json, FiniteSets, TlChoice
 CONSTANTS Seed, Ns, PerSchema
 VARIABLE k
@@ -88,11 +98,20 @@ AShape(a) == CASE a % 4 = 0 -> <<AKind(a)>>
                [] a % 4 = 2 -> <<U(13), Rf(U(32)), AKind(a), Rf(Nm("NoTag")), Bo>>
                [] a % 4 = 3 -> <<U(13), Rf(U(32)), AKind(a)>>
 AnonIdx(n) == IF IsA(n) THEN {AIdx(n - ABase)} ELSE {}
-IsFam(n)   == IsE(n) \/ IsA(n)
+\* ---- the VarUInteger family: n = 1..VCount
+VBase  == 9200000
+VCount == 33
+IsV(n) == n >= VBase /\ n < VBase + VCount
+Vu(n)  == [t |-> "varuint", n |-> n]
+RECURSIVE IsPow2(_)
+IsPow2(n) == n = 1 \/ (n > 1 /\ n % 2 = 0 /\ IsPow2(n \div 2))
+VShape(m) == <<U(3), Vu(m), Bo>>
+IsFam(n)   == IsE(n) \/ IsA(n) \/ IsV(n)
 
 Shape(n) == IF n < NA THEN <<Alphabet[n + 1]>>
             ELSE IF IsE(n) THEN EShape(n - EBase)
             ELSE IF IsA(n) THEN AShape(n - ABase)
+            ELSE IF IsV(n) THEN VShape(n - VBase + 1)
             ELSE LET ctx == B4(Seed) \o B4(n) \o <<78>>  len == 2 + Pick(ctx, 3)
                  IN [i \in 1..len |-> Alphabet[Pick(ctx \o <<i>>, NA) + 1]]
 
@@ -110,13 +129,15 @@ Inline(ty) == CASE ty.t = "ref" -> ty.of
                 [] OTHER -> ty
 OwnRef(ty) == Inline(ty) # ty
 \* the declaration every judge must refuse for values of shape n: E family ^ exchanged, A family unnamed ^ dropped
-WrongShape(n) == IF IsA(n) THEN [i \in 1..Len(Shape(n)) |-> IF i \in AnonIdx(n) THEN Inline(Shape(n)[i]) ELSE Shape(n)[i]]
+WrongShape(n) == IF IsV(n) THEN <<U(3), Vu(n - VBase + 2), Bo>>
+                 ELSE IF IsA(n) THEN [i \in 1..Len(Shape(n)) |-> IF i \in AnonIdx(n) THEN Inline(Shape(n)[i]) ELSE Shape(n)[i]]
                  ELSE SwapShape(Shape(n))
 
 \* label of a kind = its TL-B text, except that an Either with ^ in an unusual place is labelled by its class (EiClass)
 RECURSIVE TyText(_)
 TyText(ty) ==
   CASE ty.t \in {"uint", "int", "bits"} -> StrCat(ty.t, ToString(ty.n))
+    [] ty.t = "varuint" -> StrCat("(VarUInteger ", StrCat(ToString(ty.n), ")"))
     [] ty.t = "nat"    -> StrCat("(## ", StrCat(ToString(ty.n), ")"))
     [] ty.t = "bool"   -> "Bool"
     [] ty.t = "maybe"  -> StrCat("(Maybe ", StrCat(TyText(ty.of), ")"))
@@ -134,6 +155,7 @@ EiClass(ty) ==
   ELSE "Either-with-^-on-one-side-of-different-types"
 KLabel(ty) ==
   IF ty.t = "either" THEN EiClass(ty)
+  ELSE IF ty.t = "varuint" THEN (IF IsPow2(ty.n) THEN "(VarUInteger 2^k)" ELSE "(VarUInteger n)")     \* two classes: the len field is ceil(log2 n) bits
   ELSE IF ty.t = "maybe" /\ ty.of.t = "either" /\ EiClass(ty.of) # TyText(ty.of) THEN EiClass(ty.of)     \* the class also when nested under Maybe
   ELSE TyText(ty)
 \* unnamed fields: every unnamed ^ is one class, every unnamed Maybe another, the other forms keep their text
@@ -181,8 +203,15 @@ RECURSIVE GenV(_, _, _, _), GenFs(_, _, _, _, _, _)
 GenFs(S, fs, ctx, dep, i, acc) ==
   IF i > Len(fs) THEN acc ELSE GenFs(S, fs, ctx, dep, i + 1, acc @@ (fs[i].name :> GenV(S, fs[i].ty, ctx \o <<i>>, dep + 1)))
 GenCtor(S, d, ctx, dep) == GenFs(S, d.fields, ctx, dep, 1, "_" :> d.ctor)
+\* VarUInteger n: the length by vector number (0, n - 1, 1, drawn), the top byte 0x01 or with its top bit set, the rest a pattern
+VarV(ctx, n) ==
+  LET j == VecNo(ctx)
+      l == IF n = 1 \/ j % 4 = 0 THEN 0 ELSE IF j % 4 = 1 THEN n - 1 ELSE IF j % 4 = 2 THEN 1 ELSE Pick(ctx \o <<50>>, n)
+      top == IF (j \div 4) % 2 = 0 THEN <<0, 0, 0, 0, 0, 0, 0, 1>> ELSE <<1>> \o PatBits(ctx \o <<51>>, 7)
+  IN IF l = 0 THEN "0" ELSE UDec(top \o PatBits(ctx \o <<52>>, 8 * (l - 1)))
 GenV(S, ty, ctx, dep) ==
   CASE ty.t \in {"uint", "nat"} -> UDec(PatBits(ctx, ty.n))
+    [] ty.t = "varuint" -> VarV(ctx, ty.n)
     [] ty.t = "int"    -> B!SDec(PatBits(ctx, ty.n))
     [] ty.t = "bits"   -> BitsToStr(PatBits(ctx, ty.n))
     [] ty.t = "bool"   -> Pick(ctx \o <<1>>, 2) = 1
@@ -235,6 +264,14 @@ ACovered(n, vs) ==
   /\ (ty.t = "maybe"  => {"none", "just"} \subseteq {vs[j].v[fld].m : j \in mains})
   /\ (OwnRef(ty) => \E j \in mains : "wrong" \in DOMAIN vs[j])
 
+\* VarUInteger family, not vacuous: Main has the value 0, a value of the largest length, and (n a power of two) a `wrong` twin
+VCovered(n, vs) ==
+  LET m == n - VBase + 1  mains == {j \in 1..Len(vs) : vs[j].ty = "Main"} IN
+  /\ \A j \in mains : "cell" \in DOMAIN vs[j]
+  /\ \E j \in mains : vs[j].v.f2 = "0"
+  /\ \E j \in mains : VarLen(vs[j].v.f2, m) = m - 1
+  /\ (IsPow2(m) <=> \E j \in mains : "wrong" \in DOMAIN vs[j])
+
 Out(n) == LET S == SchemaOf(n)  vs == [j \in 1..PerSchema |-> VecOf(S, j)] IN
           [schema |-> n, ast |-> S, kinds |-> [i \in 1..Len(Shape(n)) |-> KLabelAt(n, i)], vecs |-> vs,
            sane |-> /\ \A j \in 1..PerSchema :
@@ -242,7 +279,8 @@ Out(n) == LET S == SchemaOf(n)  vs == [j \in 1..PerSchema |-> VecOf(S, j)] IN
                          /\ ("cell" \in DOMAIN vs[j] => Matches(S, Nm(vs[j].ty), vs[j].v, CellOf(vs[j].cell)) /\ CellFits(CellOf(vs[j].cell)))
                          /\ ("wrong" \in DOMAIN vs[j] => ~Matches(S, Nm(vs[j].ty), vs[j].v, CellOf(vs[j].wrong)))
                     /\ (IsE(n) => ECovered(n, vs))
-                    /\ (IsA(n) => ACovered(n, vs))]
+                    /\ (IsA(n) => ACovered(n, vs))
+                    /\ (IsV(n) => VCovered(n, vs))]
 
 Init == k \in Ns
 Next == UNCHANGED k
